@@ -11,7 +11,15 @@ Tie:
      equal (rtol 1e-7), finite and non-negative, one symmetry generator at a time (rotation, boost, rotation+boost,
      inversion, identical-particle exchange);
  (G) layer geometry: hypothesis of C01_cascade_rotation_invariant (SU(2) relation of the helicity rotations under a common
-     rotation, azimuth shift of the next vertex, unchanged polar angle) certified by Coq-Interval on the code's angles."""
+     rotation, azimuth shift of the next vertex, unchanged polar angle) certified by Coq-Interval on the code's angles;
+ (S) layer swap_sign: DecayGroup.get_swap_factor = the signature model of Amp/SwapSign.v (vm_compute) for every permutation of
+     identical groups of 2, 3, 4 names (fermions and bosons, one and two groups).
+Scenario families added after the independent hunt (each is a regression test of a repair in /repo, see build/fix_C01):
+ direct three-body node [A->B+C+D] interfering with resonant chains, spinning final particle (declared first / last);
+ three identical spin-1/2 particles (all permutations, 3-cycles are even);
+ identical particles WITH spin and only one of the equivalent chains listed (the exchange term is the only source of the other).
+Excluded from the regular stream by rule: events with a vertex whose daughter is within 1e-6 rad of collinear with the
+parent's line of flight (helicity axes degenerate; OPEN finding collinear_subdecay_axes, one fixed reproducer below)."""
 import copy
 import math
 import random
@@ -108,6 +116,101 @@ def geometry_cases(ctx, rnd, tag, config, cfg, p4, data, nev):
             ctx.distinct.add((tag, "geometry", str(ch), e))
 
 
+SCASES = []
+SHEADER = ("From Coq Require Import List ZArith.\nFrom TFV Require Import Amp.SwapSign.\nImport ListNotations.\n")
+
+
+def min_abs_sin_beta(d):
+    """smallest |sin beta| over all vertices of a cal_angle result (collinearity measure)"""
+    best = [1.0]
+
+    def walk(x):
+        if isinstance(x, dict):
+            for k, v in x.items():
+                if k == "ang" and isinstance(v, dict) and "beta" in v:
+                    best[0] = min(best[0], float(np.abs(np.sin(np.array(v["beta"], dtype=float))).min()))
+                elif k not in ("id_swap", "cp_swap"):
+                    walk(v)
+    walk(d.get("decay", {}))
+    return best[0]
+
+
+def direct3_config(JB, JA, first):
+    """direct node [A->B+C+D] interfering with two resonant chains, B with spin"""
+    mf = {"B": 2.1, "C": 1.8, "D": 0.1}; M0 = 4.6
+    res = {"R_BC": {"pair": "R_BC", "J": JB, "P": -1, "mass": 4.1, "width": 0.1}, "R_CD": {"pair": "R_CD", "J": 1, "P": -1, "mass": 2.0, "width": 0.1}}
+    cfg = ampkit.three_body_config(M0, mf, res, top=(JA, 1), fin={"B": (JB, 1), "C": (0, -1), "D": (0, -1)})
+    node = ["B", "C", "D"]
+    cfg["decay"]["A"] = ([node] + cfg["decay"]["A"]) if first else (cfg["decay"]["A"] + [node])
+    return cfg, M0, mf
+
+
+def swap_sign_cases(ctx, rnd):
+    """DecayGroup.get_swap_factor against the signature model, every permutation of groups of 2..4 names, one and two groups"""
+    import itertools
+    from tf_pwa.config_loader import ConfigLoader
+    for J, ferm in ((0.5, True), (1, False)):
+        for groups in ([["B", "C"]], [["B", "C", "D"]], [["B", "C", "D", "E"]], [["B", "C"], ["D", "E"]]):
+            names = [n for g in groups for n in g]
+            mf = {n: 0.3 for n in "BCDE"}; M0 = 3.1
+            spins = {"A": (1, -1)}
+            spins.update({n: (J, -1) for n in "BCDE"})  # all four finals carry the spin: integer total, groups declared among them
+            chains = [{"kind": "22", "R1": ("R1", 1, -1, 0.9, 0.15, ("B", "C")), "R2": ("R2", 1, -1, 1.0, 0.1, ("D", "E"))}]
+            cfg = ampkit.four_body_config(M0, mf, spins, chains, data_opts={"identical_particles": groups})
+            dg = ConfigLoader(cfg).get_amplitude().decay_group
+            for comb in itertools.product(*[list(itertools.permutations(g)) for g in groups]):
+                key = (tuple(names), tuple(comb))
+                obs = float(dg.get_swap_factor(key))
+                idx = [[list(g).index(n) for n in c] for g, c in zip(groups, comb)]
+                cid = "S_%s_%s" % ("f" if ferm else "b", "_".join("".join(c) for c in comb))
+                ok = obs in (1.0, -1.0)
+                gl = "; ".join("(%s, [%s]%%nat)" % ("true" if ferm else "false", "; ".join(str(i) for i in ix)) for ix in idx)
+                SCASES.append((cid, ("groups_factor swap_factor [%s] = (%d)%%Z" % (gl, int(obs))) if ok else "False", "vm_compute; reflexivity",
+                               {"layer": "swap_sign", "config": cfg, "identical_particles": groups, "permuted": [list(c) for c in comb],
+                                "impl_factor": obs, "fermion": ferm}))
+                ctx.count("swap_sign:%s:n=%s" % ("fermion" if ferm else "boson", "+".join(str(len(g)) for g in groups)))
+                ctx.evaluations += 1
+                ctx.distinct.add(("swap_sign", ferm, tuple(comb)))
+
+
+def collinear_reproducer(ctx):
+    """fixed reproducer of the OPEN finding collinear_subdecay_axes: a sub-decay exactly along the parent's line of flight"""
+    from tf_pwa.config_loader import ConfigLoader
+    mf = {"B": 2.1, "C": 1.8, "D": 0.1}; M0 = 4.6
+    res = {"R_BC": {"pair": "R_BC", "J": 1, "P": 1, "mass": 4.1, "width": 0.1}, "R_BD": {"pair": "R_BD", "J": 1, "P": 1, "mass": 2.4, "width": 0.05},
+           "R_CD": {"pair": "R_CD", "J": 1, "P": -1, "mass": 2.0, "width": 0.1}}
+    cfg = ampkit.three_body_config(M0, mf, res, top=(1, -1), fin={"B": (1, -1), "C": (1, -1), "D": (0, -1)})
+    config = ConfigLoader(cfg); amp = config.get_amplitude(); pars = ampkit.random_params(amp, random.Random(11))
+
+    def two_body(M, m1, m2, n):
+        n = np.asarray(n, float); n = n / np.linalg.norm(n)
+        p = ampkit._relp(M, m1, m2)
+        return np.array([math.sqrt(m1 ** 2 + p ** 2), *(p * n)]), np.array([math.sqrt(m2 ** 2 + p ** 2), *(-p * n)])
+
+    def event(n1, n2, mR=4.1):
+        R, D = two_body(M0, mR, mf["D"], n1)
+        B, C = two_body(mR, mf["B"], mf["C"], n2)
+        beta = R[1:] / R[0]
+        return {"B": ampkit._boost(B, beta)[None], "C": ampkit._boost(C, beta)[None], "D": D[None]}
+
+    def dens(ev):
+        return float(np.array(amp(config.data.cal_angle(ev)))[0])
+    n = (0.3, 0.4, 0.5)
+    lim = dens(event(n, (0.3, 0.4 - 1e-6, 0.5))); lim2 = dens(event(n, (0.3, 0.4 - 2e-6, 0.5)))
+    at = dens(event(n, n))
+    nan_ev = event((1, 1, 1), (1, 1, 1)); at111 = dens(nan_ev)
+    bad = (not math.isfinite(at111)) or abs(at / lim - 1) > 1e-4
+    ctx.count("known_reproducer:collinear_subdecay_axes:%s" % ("fails" if bad else "passes"))
+    ctx.evaluations += 4
+    if bad:
+        ctx.fail("finite_nonneg", "known_collinear_subdecay",
+                 "sub-decay exactly along the line of flight: density %.6g (limit %.6g, at 2e-6 rad %.6g); line of flight (1,1,1): %r" % (at, lim, lim2, at111),
+                 site="tf_pwa/angle.py Vector3.cross_unit degenerate fallback (collinear sub-decay)", fingerprint="collinear_subdecay_axes",
+                 failing_input={"config": cfg, "params": {k: float(v) for k, v in pars.items()},
+                                "events": {k: np.concatenate([event(n, n)[k], nan_ev[k]]).tolist() for k in "BCD"},
+                                "density": [at, at111], "continuous_limit_event0": lim})
+
+
 def metamorphic(ctx, rnd, tag, cfg, p4, cases, parity_ok=True, swap=None, nmass=2):
     """densities at p and Lambda p on the implementation, certified close; invariant masses tied to the model"""
     from tf_pwa.config_loader import ConfigLoader
@@ -115,6 +218,9 @@ def metamorphic(ctx, rnd, tag, cfg, p4, cases, parity_ok=True, swap=None, nmass=
     amp = config.get_amplitude()
     pars = ampkit.random_params(amp, rnd)
     data = config.data.cal_angle(p4)
+    if min_abs_sin_beta(data) < 1e-6:  # stated exclusion rule (helicity axes degenerate: OPEN finding collinear_subdecay_axes)
+        ctx.count("excluded:collinear_vertex")
+        return None
     with amplayers.VertexCapture() as cap:
         rho = np.array(amp(data))
     nev = len(rho)
@@ -207,6 +313,8 @@ def search(ctx, fails):
         if m.get("layer") == "geometry" and (m["su2_mismatch"] > 1e-9 or abs(math.cos(m["polar_next_vertex"][0]) - math.cos(m["polar_next_vertex"][1])) > 1e-9
                                              or m["gamma_first_vertex"] != [0.0, 0.0]):
             return {k: m[k] for k in m if k != "layer"}
+        if m.get("layer") == "swap_sign":
+            return {k: m[k] for k in m if k != "layer"}
         if m.get("layer") == "finite_nonneg":
             return {"config": m["config"], "params": m["params"], "events": m["events"], "event": m["event"], "density": m["impl_density"]}
     r = c04.search(ctx, fails)
@@ -216,10 +324,13 @@ def search(ctx, fails):
 def run(ctx):
     del VCASES[:]
     del GCASES[:]
-    ctx.extra_targets = ["Amp/Chain.vo", "Amp/CascadeTie.vo"]
+    del SCASES[:]
+    ctx.extra_targets = ["Amp/Chain.vo", "Amp/CascadeTie.vo", "Amp/SwapSign.vo"]
     rnd = random.Random(ctx.seed * 1000003 + 1)
     ctx.rule = ("spin-0 three-chain configs: closed-form layers at p and at Lambda p for Lambda in {rotation, boost(|v|<=0.9), rot+boost, inversion}; spinful: spin-1/2 weak decay, "
-                "vector->vector+2 scalars, vector->3 scalars through all three pairings (spins 1,2,1), 4-body vector->4 scalars via (VV) and (A->V) cascades, identical spin-0 pair: densities at p vs Lambda p, one generator at a time; "
+                "vector->vector+2 scalars, vector->3 scalars through all three pairings (spins 1,2,1), 4-body vector->4 scalars via (VV) and (A->V) cascades, identical spin-0 pair, three identical spin-1 and three identical spin-1/2 particles (all permutations), identical spin-1 / spin-1/2 pair with one listed chain, "
+                "direct three-body node + resonant chains with a spin-1 / spin-1/2 final particle: densities at p vs Lambda p, one generator at a time; get_swap_factor vs signature model for all permutations of 2..4 names; "
+                "excluded: events with a vertex within 1e-6 rad of collinear (open finding, fixed reproducer); "
                 "distinct = distinct (config, transform, event)")
     common.theorem_stage(ctx)
     quick = ctx.tier == "quick"
@@ -272,12 +383,37 @@ def run(ctx):
     cfg = ampkit.three_body_config(M0, mf, res, top=(1, -1), fin={k: (1, -1) for k in "BCD"}, data_opts={"identical_particles": [["B", "C", "D"]]})
     p4 = ampkit.gen_events(M0, mf, nev, rnd.randrange(10 ** 6))
     permutation_cases(ctx, rnd, "identical3", cfg, p4, cases)
+    # three identical SPIN-1/2 particles, one listed chain: the signs of the exchanged amplitudes (3-cycles are EVEN) and the frame
+    mf = {"B": 0.5, "C": 0.5, "D": 0.5}; M0 = 3.6
+    res = {"R_BC": {"pair": "R_BC", "J": 1, "P": 1, "mass": 1.6, "width": 0.2}}
+    cfg = ampkit.three_body_config(M0, mf, res, top=(0.5, 1), fin={k: (0.5, -1) for k in "BCD"}, data_opts={"identical_particles": [["B", "C", "D"]]})
+    p4 = ampkit.gen_events(M0, mf, nev, rnd.randrange(10 ** 6))
+    permutation_cases(ctx, rnd, "idfermion3", cfg, p4, cases)
+    metamorphic(ctx, rnd, "idfermion3", cfg, p4, cases, swap=("B", "D"))
+    # identical particles WITH spin, only one of the equivalent chains listed (A->R+C, R->B+D with B, C identical): the other one
+    # exists only as the exchange term, so both must refer the spin of B and C to frames fixed by the particle's own momentum
+    for J, JR in ((1, 1), (0.5, 0.5)):
+        mf = {"B": 0.7, "C": 0.7, "D": 0.14}; M0 = 3.6
+        res = {"R_BD": {"pair": "R_BD", "J": JR, "P": 1, "mass": 1.3, "width": 0.2}}
+        cfg = ampkit.three_body_config(M0, mf, res, top=(1, -1), fin={"B": (J, -1), "C": (J, -1), "D": (0, -1)}, data_opts={"identical_particles": [["B", "C"]]})
+        p4 = ampkit.gen_events(M0, mf, nev, rnd.randrange(10 ** 6))
+        metamorphic(ctx, rnd, "idspin_onechain_J%s" % str(J).replace(".", ""), cfg, p4, cases, swap=("B", "C"))
+    # direct three-body node interfering with resonant chains, spinning final particle; declared first (it is the alignment
+    # reference of every final particle) and last (it is aligned to the resonant chains)
+    for JB, JA, first in (((1, 1, True), (0.5, 0.5, False)) if quick else ((1, 1, True), (0.5, 0.5, False), (1, 1, False), (0.5, 0.5, True), (1, 2, True))):
+        cfg, M0, mf = direct3_config(JB, JA, first)
+        p4 = ampkit.gen_events(M0, mf, nev, rnd.randrange(10 ** 6))
+        metamorphic(ctx, rnd, "direct3_JB%s_JA%s_%s" % (str(JB).replace(".", ""), str(JA).replace(".", ""), "first" if first else "last"), cfg, p4, cases)
+        ctx.sample({"config_tag": "direct3", "decay": cfg["decay"]}, cap=10)
+    swap_sign_cases(ctx, rnd)
+    collinear_reproducer(ctx)
     for c in cases[:: max(1, len(cases) // 4)]:
         ctx.sample({"case": c[0], "goal": c[1][:300], "layer": c[3].get("layer")}, cap=12)
     res_ = common.coq_cases(ctx, "c01", HEADER, [c[:3] for c in cases], per_file=8, case_timeout=60)
     res_.update(common.coq_cases(ctx, "c01v", amplayers.HEADER, [c[:3] for c in VCASES], per_file=6, case_timeout=90))
     res_.update(common.coq_cases(ctx, "c01g", GHEADER, [c[:3] for c in GCASES], per_file=2, case_timeout=120))
-    cases = cases + VCASES + GCASES
+    res_.update(common.coq_cases(ctx, "c01s", SHEADER, [c[:3] for c in SCASES], per_file=40, case_timeout=60))
+    cases = cases + VCASES + GCASES + SCASES
     for cid, stmt, tac, meta in cases:
         if res_[cid] != "OK":
             ctx.fail(meta["layer"], cid, "layer %s does not check (%s)" % (meta["layer"], res_[cid]), inp=meta,
